@@ -50,26 +50,38 @@ pub struct InverseDictLookup<'a> {
     pub dict_indices: BufferRef<u64>,
     pub dict_data: BufferRef<u8>,
     pub constant: BufferRef<Scalar<&'a str>>,
+    pub mode: u8,
     pub output: BufferRef<Scalar<i64>>,
 }
 
 impl<'a> VecOperator<'a> for InverseDictLookup<'a> {
     fn execute(&mut self, _: bool, scratchpad: &mut Scratchpad<'a>) -> Result<(), QueryError> {
         let result = {
-            let mut result = -1;
+            // The dictionary is sorted. `smaller` counts the entries below the constant, which is also the index
+            // of the constant if it is present.
+            let mut smaller = 0i64;
+            let mut present = false;
             let constant = scratchpad.get_scalar(&self.constant);
             let constant = constant.as_bytes();
             let dict_indices = scratchpad.get(self.dict_indices);
             let dict_data = scratchpad.get(self.dict_data);
-            for (i, offset_len) in dict_indices.iter().enumerate() {
+            for offset_len in dict_indices.iter() {
                 let offset = (offset_len >> 24) as usize;
                 let len = (offset_len & 0x00ff_ffff) as usize;
-                if &dict_data[offset..(offset + len)] == constant {
-                    result = i as i64;
+                let entry = &dict_data[offset..(offset + len)];
+                if entry < constant {
+                    smaller += 1;
+                } else {
+                    present = entry == constant;
                     break;
                 }
             }
-            result
+            match (present, self.mode) {
+                (true, _) => smaller,
+                (false, 1) => smaller,
+                (false, 2) => smaller - 1,
+                (false, _) => -1,
+            }
         };
         scratchpad.set_const(self.output, result);
         Ok(())
